@@ -1,6 +1,6 @@
 From Stam Require Import Base.Tac Model.Offset Model.Store Model.StoreObs Spec.StoreSpec
      Proofs.StoreScan Proofs.StoreInv Proofs.StoreDataDef Proofs.StoreRemove Proofs.StoreRemove2
-     Proofs.StoreRemove3 Proofs.StoreData Proofs.StoreExact Props.C02.
+     Proofs.StoreRemove3 Proofs.StoreData Proofs.StoreExact Proofs.StoreExactData Props.C02.
 Check (C02_nothing_dangles : forall ops, let s := run ops in ann_refs_ok s /\ item_refs_ok s /\ data_ok s).
 Check (C02_every_step_keeps_the_store_sound : forall s o, Good s -> Good (fst (step s o))).
 Check (C02_remove_annotation_cascade : forall ex fuel s h,
@@ -14,7 +14,23 @@ Check (C02_remove_annotation_exact : forall ops h,
   get_ann s h <> None ->
   forall x, get_ann s x <> None ->
     (get_ann (fst (remove_ann (fuel_of s) s h)) x = None <-> In x (deps_ann s h))).
+Check (C02_remove_resource_exact : forall ops r h,
+  let s := run ops in
+  ref_res s r = Some h ->
+  forall x, get_ann s x <> None ->
+    (get_ann (fst (rm_resource s r)) x = None <-> In x (deps_res s h))).
+Check (C02_remove_dataset_exact : forall ops r h,
+  let s := run ops in
+  ref_set s r = Some h ->
+  forall x, get_ann s x <> None ->
+    (get_ann (fst (rm_dataset s r)) x = None <-> In x (deps_set s h))).
+Check (C02_remove_data_exact : forall ops d x strict,
+  let s := run ops in
+  let s' := fst (remove_data_h s d x strict) in
+  (forall y, get_ann s y <> None -> (get_ann s' y = None <-> In y (deps_data s d x strict)))
+  /\ (forall y a', get_ann s' y = Some a' -> exists a, get_ann s y = Some a /\ a' = ann_remove_data a d x)).
 Print Assumptions C02_remove_annotation_exact.
+Print Assumptions C02_remove_data_exact.
 Print Assumptions C02_closure_meaning.
 Print Assumptions C02_remove_resource_exact.
 Print Assumptions C02_remove_dataset_exact.
